@@ -3,6 +3,7 @@ C11 — CopyTo produces an equivalent, compact, durable copy and leaves the sour
 -/
 import Gkv.Proofs.GlueC
 import Gkv.Proofs.FlushCoherent
+import Gkv.Proofs.CopyCompact
 open Std
 
 namespace Gkv.Props.C11
@@ -36,5 +37,60 @@ theorem copy_ends_with_flush (src : List Coll) (fe : Int) (h : fe > 0) :
       flushStore (copyColls fe.toNat src [] { bytes := [], size := 0, log := [] }).1
         (copyColls fe.toNat src [] { bytes := [], size := 0, log := [] }).2 := by
   simp [copyTo, h]
+
+
+/-! ### "holds only live data (no superseded item versions)"
+
+`CopyCompact.copyToW` is `copyTo` returning, in addition, the list of item records it wrote
+(`copyToW_fst : (copyToW src fe).1 = copyTo src fe`; `writeItemsW_log`: that list is exactly the
+pairs of `WriteAt` events `writeItems` appended to the file's real log).  Node records ARE
+superseded by periodic flushes (the evaluated examples in `Proofs/CopyCompact.lean`: 9 or 10 node
+records for 7 nodes); item records are not. -/
+
+private theorem distinct_of_c11 (src : List Coll)
+    (hb : ∀ c ∈ src, Tree.BST c.cmp.fn c.root)
+    (hnames : src.Pairwise (fun a b => compare a.name b.name = .lt)) :
+    Gkv.CopyCompact.DistinctNames src ∧ Gkv.CopyCompact.DistinctKeys src := by
+  refine ⟨hnames.imp (fun h => Gkv.CopyCompact.ne_of_compare_lt h), ?_⟩
+  intro c hc
+  refine (Tree.toList_sorted c.cmp.fn (hb c hc)).imp ?_
+  intro a b h e
+  rw [h] at e
+  cases e
+
+/-- for `flushEvery > 0` and every well-formed source (the hypotheses of `copy_equivalent`):
+    (1) as many item records were written to the destination as the source has items, and as the
+        destination has items;
+    (2) the records written are, as a multiset, exactly the (item, location) pairs of the
+        destination's collections — every record is referenced by a live item and every live item
+        has one: no superseded item version is in the file;
+    (3) each lies inside the file with the length of its item's record, and they are pairwise
+        disjoint. -/
+theorem copy_holds_only_live_item_records (src : List Coll) (fe : Int) (hfe : fe > 0)
+    (hb : ∀ c ∈ src, Tree.BST c.cmp.fn c.root)
+    (hnames : src.Pairwise (fun a b => compare a.name b.name = .lt)) :
+    ((Gkv.CopyCompact.copyToW src fe).2.items.length = (src.map (fun c => c.root.toList.length)).sum ∧
+     (Gkv.CopyCompact.copyToW src fe).2.items.length =
+        ((copyTo src fe).1.map (fun c => c.root.toList.length)).sum) ∧
+    (((Gkv.CopyCompact.copyToW src fe).2.items.map (fun r => (r.1, some r.2))).Perm
+        (Gkv.CopyCompact.allLocs (copyTo src fe).1)) ∧
+    ((∀ x ∈ Gkv.CopyCompact.allLocs (copyTo src fe).1, ∃ p, x.2 = some p ∧ p.len = itemRecLen x.1 ∧
+        p.off + p.len ≤ (copyTo src fe).2.size) ∧
+     (Gkv.CopyCompact.allLocs (copyTo src fe).1).Pairwise
+        (fun x y => ∀ p q, x.2 = some p → y.2 = some q → Gkv.CopyCompact.Disjoint p q)) := by
+  obtain ⟨hn, hk⟩ := distinct_of_c11 src hb hnames
+  exact ⟨Gkv.CopyCompact.copyTo_item_records_of_bst src fe hfe hb hnames,
+         Gkv.CopyCompact.copyTo_item_records_perm src fe hfe hn hk,
+         Gkv.CopyCompact.copyTo_item_ranges src fe hfe hn hk⟩
+
+/-- the hypotheses are needed: for a source holding one key twice (not a search tree; the API cannot
+    build it) a periodic flush leaves a superseded item record in the file — and `flushEvery ≤ 0`
+    writes nothing at all -/
+theorem copy_live_only_needs_wellformed_source :
+    (¬ Gkv.CopyCompact.DistinctKeys Gkv.CopyCompact.srcDupKey ∧
+      (Gkv.CopyCompact.copyToW Gkv.CopyCompact.srcDupKey 1).2.items.length = 2 ∧
+      Gkv.CopyCompact.items (copyTo Gkv.CopyCompact.srcDupKey 1).1 = 1) :=
+  ⟨Gkv.CopyCompact.dupKey_superseded.1, Gkv.CopyCompact.dupKey_superseded.2.2.2.1,
+   Gkv.CopyCompact.dupKey_superseded.2.2.2.2.1⟩
 
 end Gkv.Props.C11
